@@ -9,7 +9,8 @@ Driver ops of C07 for the numerical aggregator over the software binary64 model
   agg numf  <keep> <rev> <hist>  <qs>    Sample(string) per element: ParseFloat by `F64.parseFloat`
   agg numfv <keep> <rev> <bits>  <ps>    Samplef(float64) per element: bit patterns (16 hex digits, `;`-joined),
                                          quantile arguments as bit patterns (`,`-joined)
-  agg numerr <e> <bits>                  the PROVED tolerances checked on concrete data: samples of magnitude ≤ 2^e;
+  agg numerr <e> <bits>                  the PROVED tolerances checked on concrete data: samples of magnitude ≤ 2^e
+                                         (e < 0: the scaled class, `numErrCheckJ` / `num_f64_error_check_scaled_true`);
                                          answer `ok n=<count> mean=<0|1> var=<0|1>`: is Mean() / Variance() within
                                          `meanErrBound` / `varianceErrBound` of the exact rational statistics
                                          (`num_f64_error_check_true`: always 1 1 inside the class; the Go side
@@ -149,8 +150,18 @@ def handle : List String → Option String
     | some vals, some ps => run (keep == "1") (rev == "1") (vals.map some) ps
     | _, _ => "bad-args"
   | ["agg", "numerr", e, bs] => some <|
-    match e.toNat?, (if bs = "." then some [] else (bs.splitOn ";").mapM parseHex64) with
+    match e.toInt?, (if bs = "." then some [] else (bs.splitOn ";").mapM parseHex64) with
     | some e, some vals =>
+      if e < 0 then
+        -- scaled class: M = 2^e = 2^(j − 1074)
+        let j := (e + 1074).toNat
+        if e < -1074 || !inErrClassJ j vals then "unmodelled outside-the-class"
+        else
+          let (a, b, c) := numErrCheckJ j vals
+          if !b then "model-m2-bound-violated"
+          else s!"ok n={vals.length} mean={if a then 1 else 0} var={if c then 1 else 0}"
+      else
+      let e := e.toNat
       if !inErrClass e vals then "unmodelled outside-the-class"
       else
         let (a, b, c) := numErrCheck e vals
